@@ -44,12 +44,13 @@ type Device struct {
 	modeACL   *ACL
 	modeSub   string // sub-sub mode inside a block, e.g. "webvpn"
 	modeStray bool   // mode of an object that is not modelled
+	leftConf  bool   // an 'exit' at (config) level has left configuration mode
 }
 
 func New(kind string) *Device { return &Device{Kind: kind} }
 
 func (d *Device) Clone() *Device {
-	n := &Device{Kind: d.Kind, XE: d.XE, modeSub: d.modeSub, modeStray: d.modeStray}
+	n := &Device{Kind: d.Kind, XE: d.XE, modeSub: d.modeSub, modeStray: d.modeStray, leftConf: d.leftConf}
 	for _, a := range d.ACLs {
 		c := &ACL{Name: a.Name, Standard: a.Standard}
 		for _, e := range a.Entries {
